@@ -241,6 +241,15 @@ def freshBoxes (q : Q K) (cur : Nat → Aabb3 K) (nd : Node K) : Vector (Aabb3 K
       | some cn => mergedBox cn.boxes
       | none => invalidBox
 
+/-- `if let Some(parent) = self.nodes.get_mut(parent_id) { if !parent.is_dirty() { push; set_dirty(true) } }` -/
+def flagParent (q1 : Q K) (p : Nat) (parents : List Nat) : Q K × List Nat :=
+  match q1.nodes[p]? with
+  | some pn =>
+    if !pn.dirty then
+      ({ q1 with nodes := q1.nodes.setIfInBounds p { pn with dirty := true } }, p :: parents)
+    else (q1, parents)
+  | none => (q1, parents)
+
 /-- body of the inner `while let Some(id) = self.dirty_nodes.pop()` loop.
 State: the tree, `workspace.dirty_parent_nodes` (head = last pushed), `num_changed`. -/
 def refitNode (cur : Nat → Aabb3 K) (margin : K) (first : Bool) (st : Q K × List Nat × Nat) (id : Nat) :
@@ -253,12 +262,8 @@ def refitNode (cur : Nat → Aabb3 K) (margin : K) (first : Bool) (st : Q K × L
     if !first || !(containsAll nd.boxes fresh) then
       let nd2 : Node K := { nd with dirty := false, changed := true, boxes := fresh.map (loosenBox margin) }
       let q1 : Q K := { q with nodes := q.nodes.setIfInBounds id nd2 }
-      match q1.nodes[nd2.parent]? with
-      | some pn =>
-        if !pn.dirty then
-          ({ q1 with nodes := q1.nodes.setIfInBounds nd2.parent { pn with dirty := true } }, nd2.parent :: parents, num + 1)
-        else (q1, parents, num + 1)
-      | none => (q1, parents, num + 1)
+      let r := flagParent q1 nd2.parent parents
+      (r.1, r.2, num + 1)
     else ({ q with nodes := q.nodes.setIfInBounds id { nd with dirty := false } }, parents, num)
 
 /-- one pass of the outer `while !self.dirty_nodes.is_empty()` loop: drain the work list, then swap -/
@@ -429,19 +434,34 @@ def goodNode (q : Q K) (cur : Nat → Aabb3 K) (nd : Node K) : Bool :=
         | none => true)
     | _, _ => true
 
-/-- B: every live node is good -/
+/-- B (semantic form): every live node is good -/
 def checkBox (q : Q K) (cur : Nat → Aabb3 K) : Bool :=
   (List.range q.nodes.size).all fun n =>
     match q.nodes[n]? with
     | none => true
     | some nd => !isLive q n || goodNode q cur nd
 
-/-- T: every live node is good or queued for refit -/
+/-- B (the form `refit` itself tests, `C08.BoxInv`): the lane boxes of every live node contain the boxes refit
+would compute for it now (occupied lanes: what is below; empty lanes: the invalid box) -/
+def checkFresh (q : Q K) (cur : Nat → Aabb3 K) : Bool :=
+  (List.range q.nodes.size).all fun n =>
+    match q.nodes[n]? with
+    | none => true
+    | some nd => !isLive q n || containsAll nd.boxes (freshBoxes q cur nd)
+
+/-- attached proxies carry their own index as data (`proxy.data = data`, `data.index() = id`) -/
+def checkData (q : Q K) : Bool :=
+  (List.range q.proxies.size).all fun p =>
+    match q.proxies[p]? with
+    | none => true
+    | some pr => pr.node == MAXN || pr.data == p
+
+/-- T: every live node is up to date or queued for refit (`C08.Tracked`) -/
 def checkTracked (q : Q K) (cur : Nat → Aabb3 K) : Bool :=
   (List.range q.nodes.size).all fun n =>
     match q.nodes[n]? with
     | none => true
-    | some nd => !isLive q n || goodNode q cur nd || (nd.dirty && q.dirtyNodes.contains n)
+    | some nd => !isLive q n || containsAll nd.boxes (freshBoxes q cur nd) || (nd.dirty && q.dirtyNodes.contains n)
 
 /-- depth-first collection of the proxies reachable from node `n` through valid children (fuel = tree height bound) -/
 def collect (q : Q K) : Nat → Nat → List Nat
